@@ -1,7 +1,7 @@
 (** C07 correspondence entries. *)
 From Coq Require Import String.
-From BV Require Import Base.Prelude Base.Codec Base.Wrap64 Arith.Ast Arith.Lit Arith.PegPrec Arith.Parse
-  Arith.Eval gen.ArithTable.
+From BV Require Import Base.Prelude Base.Codec Arith.Wrap64 Arith.Ast Arith.Lit Arith.PegPrec Arith.Parse
+  Arith.Eval gen.C07ArithTable.
 
 (** [c07_parse]: args = [input]; result = [show_ast] or a failure marker *)
 Definition entry_c07_parse (a : list str) : list str :=
